@@ -248,6 +248,56 @@ Theorem C19_path_base : forall dir name k,
 Proof. exact path_base_last. Qed.
 Print Assumptions C19_path_base.
 
+(** * cantext.Append* only append; Marshal / MarshalCompact are such appends; renderings are values
+    [append_to buf c] = the buffer the Go call [c] (AppendSignal, AppendSignalCompact, AppendID, AppendSender,
+    AppendSendType, AppendCycleTime, AppendDelayTime, AppendFrame) returns for the caller's buffer [buf];
+    [None] = the call panics. *)
+(** the returned buffer is the caller's buffer followed by the text the call gives for an empty buffer *)
+Theorem C19_append_only_appends : forall buf c r,
+  append_to buf c = Some r ->
+  exists t, append_to [] c = Some t /\ r = buf ++ t /\
+    forall rG rF rJ rD, render rG rF rJ rD r = render rG rF rJ rD buf ++ render rG rF rJ rD t.
+Proof. exact append_only_appends. Qed.
+Print Assumptions C19_append_only_appends.
+
+(** the first len(buf) bytes of the result are the caller's bytes *)
+Theorem C19_append_keeps_prefix : forall buf c r rG rF rJ rD,
+  append_to buf c = Some r ->
+  firstn (length (render rG rF rJ rD buf)) (render rG rF rJ rD r) = render rG rF rJ rD buf.
+Proof. exact append_keeps_prefix. Qed.
+Print Assumptions C19_append_keeps_prefix.
+
+(** only AppendFrame can fail (Frame.String() panics on a data frame with Length > 8), whatever the buffer *)
+Theorem C19_append_fails_iff : forall buf c,
+  append_to buf c = None <->
+  exists f, c = CallFrame f /\ Can.FrameString.to_string (can_frame f) = Can.FrameString.S_panic.
+Proof. exact append_fails_iff. Qed.
+Print Assumptions C19_append_fails_iff.
+
+(** Marshal / MarshalCompact written as the Go loops of Append calls over ONE growing buffer give the closed forms above *)
+Theorem C19_marshal_is_a_chain_of_appends : forall m d,
+  fold_left (fun buf s => match append_to (buf ++ [Lit t_nl_tab]) (CallSignal s d) with
+                          | Some b => b
+                          | None => buf
+                          end)
+            (msg_signals m) [Lit (msg_name m)] = text_multiline_data m d.
+Proof. exact marshal_loop_spec. Qed.
+Print Assumptions C19_marshal_is_a_chain_of_appends.
+
+Theorem C19_marshal_compact_is_a_chain_of_appends : forall m d,
+  marshal_compact_loop m d = text_compact_data m d.
+Proof. exact marshal_compact_loop_spec. Qed.
+Print Assumptions C19_marshal_compact_is_a_chain_of_appends.
+
+(** the k-th result of rendering a sequence of items is the rendering of the k-th item alone, whatever else is
+    rendered before or after (any renderer [f] of the model: a rendering is a value). That the Go functions
+    return memory which no later call writes to is outside the model and observed by the correspondence run
+    (retained results, 'A'/'AC' lines). *)
+Theorem C19_renderings_are_values : forall (A B : Type) (f : A -> B) (items : list A) k,
+  nth_error (map f items) k = option_map f (nth_error items k).
+Proof. exact (@renderings_are_values). Qed.
+Print Assumptions C19_renderings_are_values.
+
 (** * F7 (DESIGN.md section 6): the pre-fix uintToJSON = strconv.Itoa(int(u)) violates the raw-value clause:
     the 64-bit unsigned signal at bit 0 with payload ff..ff holds 2^64-1 and was printed as "-1",
     which is not the decimal of the value and does not parse as an unsigned number; the fixed
@@ -317,3 +367,12 @@ Proof.
       split; left; reflexivity.
     + intros _. exists []. split; [reflexivity|constructor].
 Qed.
+
+(** the append theorems are not vacuous: AppendID onto the prefix "x" for [ex_msg]; AppendFrame fails for Length 9 *)
+Example C19_append_nonvacuous :
+  append_to [Lit [120]] (CallID ex_msg) =
+    Some [Lit [120]; Lit [73; 68; 58; 32]; Lit [50; 57; 49]; Lit [32; 40; 48; 120]; Lit [49; 50; 51]; Lit [41]] /\
+  append_to [] (CallFrame {| fr_id := 0x123; fr_length := 2; fr_data := ex_data; fr_remote := false; fr_extended := false |}) =
+    Some [Lit [70; 114; 97; 109; 101]; Lit [58; 32]; Lit [49; 50; 51; 35; 70; 70; 56; 48]] (* Frame: 123#FF80 *) /\
+  append_to [Lit [120]] (CallFrame {| fr_id := 1; fr_length := 9; fr_data := ex_data; fr_remote := false; fr_extended := false |}) = None.
+Proof. split; [vm_compute; reflexivity|]. split; vm_compute; reflexivity. Qed.
